@@ -6,7 +6,8 @@
    Here: a symbolic pre-pass over the top level of the program gives every global label of the program file an
    address polynomial  base + known bytes + sum of unknowns,  one unknown per statement whose size is not fixed by
    its form (fills that depend on the address, counts that depend on labels, repeats, includes, skips).  A .repeat
-   count that evaluates, over these polynomials, to a CONSTANT is replaced by that literal; then Model/Asm.v
+   count that evaluates, over these polynomials, to a CONSTANT is replaced by that literal; likewise a link base
+   spelled through labels (`.link 1000 + e - s`), with the base itself as one more unknown; then Model/Asm.v
    assembles the rewritten program, and the result is kept only if every replaced count expression, evaluated
    with the FINAL symbol table (Spec.Arith.eval), gives the literal that was used (XUnsup "count-guard" otherwise).
    No proofs here. *)
@@ -124,6 +125,38 @@ Fixpoint resolve_list (D : list defn) (K : list key) (X : list (string * nat)) (
   | s :: r => let '(r', ch) := resolve_list D K X labs r in (s :: r', ch)
   end.
 
+(* the first base-fixing statement of the program file gets the expression b *)
+Fixpoint top_base (l : list stmt) : option expr :=
+  match l with
+  | [] => None
+  | Link e :: _ => Some e
+  | Skip e :: _ => Some e
+  | Include false _ _ :: _ => None          (* a linked file first: it may fix the base; not handled here *)
+  | _ :: r => top_base r
+  end.
+Fixpoint set_base (b : expr) (l : list stmt) : list stmt :=
+  match l with
+  | [] => []
+  | Link _ :: r => Link b :: r
+  | Skip _ :: r => Skip b :: r
+  | Include false f body :: r => Include false f body :: r
+  | x :: r => x :: set_base b r
+  end.
+
+(* a link base spelled through labels (`.link 1000 + e - s`): with the base as unknown 0, the expression must come
+   out as a constant -- the base and every unknown size cancel *)
+Definition resolve_base (D : list defn) (K : list key) (X : list (string * nat)) (q : list stmt) : option (expr * Z) :=
+  match top_base q with
+  | Some e =>
+      if nodot e then
+        match peval D K X (label_polys D K X (Poly.pvar 0) 1 q) e with
+        | Some p => if Poly.is_const p then Some (e, Poly.const p) else None
+        | None => None
+        end
+      else None
+  | None => None
+  end.
+
 Definition resolve (p : program) : program * list (expr * Z) :=
   let q := cut_end p in
   let D := collect_defs 0 0 q in
@@ -131,7 +164,17 @@ Definition resolve (p : program) : program * list (expr * Z) :=
   let X := all_exports D K (collect_exports 0 q) in
   match find_base enc D K X (S (length D)) q with
   | XOk base => resolve_list D K X (label_polys D K X (Poly.pconst base) 1 q) q
-  | _ => (q, [])
+  | _ =>
+      match resolve_base D K X q with
+      | Some (e, bv) =>
+          let q' := set_base (zlit bv) q in
+          match find_base enc D K X (S (length D)) q' with
+          | XOk base =>
+              let '(q'', ch) := resolve_list D K X (label_polys D K X (Poly.pconst base) 1 q') q' in (q'', (e, bv) :: ch)
+          | _ => (q, [])
+          end
+      | None => (q, [])
+      end
   end.
 
 Definition check_counts (f : full) (ch : list (expr * Z)) : bool :=
